@@ -11,7 +11,8 @@ THEOREMS = ["Mmtk.RefProc.weak_cleared_iff", "Mmtk.RefProc.enqueued_once", "Mmtk
             "Mmtk.RefProc.dead_reference_dropped", "Mmtk.RefProc.soft_retained", "Mmtk.RefProc.fin_conservation",
             "Mmtk.RefProc.fin_wf_apply", "Mmtk.RefProc.fin_scan_spec", "Mmtk.RefProc.pop_spec", "Mmtk.RefProc.fin_history_wf",
             "Mmtk.WeakMon.gcStages_tables_nodup", "Mmtk.WeakMon.gcStages_weak_spec", "Mmtk.WeakMon.gcStages_fin_spec",
-            "Mmtk.WeakMon.Los.isLive_iff_survives_partial", "Mmtk.WeakMon.Los.young_untraced_live_but_swept"]
+            "Mmtk.WeakMon.Los.isLive_iff_survives", "Mmtk.WeakMon.Los.isLive_iff_survives_partial",
+            "Mmtk.WeakMon.Los.young_untraced_live_but_swept"]
 KEYS = ("gc:referent-mismatch", "gc:enqueued-mismatch", "gc:getfin-mismatch", "gc:getallfin-mismatch", "gc:ismo-missing",
         "gc:dup-id", "gc:extra-object", "gc:lost-object", "gc:size-mismatch", "gc:payload", "gc:field-mismatch", "gc:root-mismatch")
 META = {
@@ -185,10 +186,7 @@ class RGen:
 def gen_refs(rnd, plan, info, heap, workers, rounds=5, nursery=False):
     g = RGen(rnd, plan, info, heap)
     r = rnd
-    if nursery:
-        # KNOWN defect gc:los-nursery-weak-dangling: young LOS objects answer is_live() = true in a nursery GC and are
-        # freed nevertheless; kept out of the programs that run nursery collections (one corpus program reports it)
-        g.sems = [x for x in g.sems if x != "Los"]
+    # (young LOS objects used to be kept out of the nursery programs: gc:los-nursery-weak-dangling, repaired by a fix: commit)
     a = g.alloc(1, 40, "Default", 63)
     g.vmroot(G.ANCHOR_KEY, a)
     g.root(63, None)
